@@ -1340,6 +1340,25 @@ func TestVerifReplay(t *testing.T) {
 			fail("ReadBool accepted the non-canonical byte %#x", bb)
 		}
 	}
+	// a boolean is not a number: ReadNum refuses a *bool destination
+	func() {
+		defer func() { _ = recover() }()
+		var flag bool
+		n, err := NewDeserializer([]byte{2}).ReadNum(&flag, id).Done()
+		fail("ReadNum into a *bool consumed %d byte(s) of the non-canonical boolean byte 0x02 (value %v, err %v): booleans go through ReadBool, which accepts 0 and 1 only", n, flag, err)
+	}()
+	// strings are length-prefixed by their byte length, whatever their characters
+	for _, str := range []string{"h\u00e9llo w\u00f6rld \u2713", "\u65e5\u672c\u8a9e", "a\U0001F600b"} {
+		sb, err := NewSerializer().WriteString(str, SeriLengthPrefixTypeAsByte, id, 0, 0).Serialize()
+		want := append([]byte{byte(len(str))}, str...)
+		if err != nil || !bytes.Equal(sb, want) {
+			fail("WriteString(%q): % x, err %v; the layout is the byte length %d followed by the UTF-8 bytes", str, sb, err, len(str))
+		}
+		var back string
+		if n, err := NewDeserializer(sb).ReadString(&back, SeriLengthPrefixTypeAsByte, id, 0, 0).Done(); err != nil || n != len(sb) || back != str {
+			fail("ReadString(WriteString(%q)) = %q, consumed %d of %d, err %v", str, back, n, len(sb), err)
+		}
+	}
 	// variable-length byte slices and strings: every prefix width at its boundary lengths
 	widths := map[SeriLengthPrefixType]int{SeriLengthPrefixTypeAsByte: 1, SeriLengthPrefixTypeAsUint16: 2, SeriLengthPrefixTypeAsUint32: 4}
 	maxes := map[SeriLengthPrefixType]int{SeriLengthPrefixTypeAsByte: 255, SeriLengthPrefixTypeAsUint16: 65535, SeriLengthPrefixTypeAsUint32: 1 << 32}
@@ -3334,7 +3353,7 @@ type rpNest struct{ V rpInner ` + "`serix:\"\"`" + ` }
 func TestVerifReplay(t *testing.T) {
 	api := serix.NewAPI()
 	// every JSON value kind for the field "v"
-	vals := []string{"5", "1.5", "\"x\"", "\"0x01020304\"", "true", "null", "[1,2]", "[\"a\"]", "{\"a\":1}", "{}"}
+	vals := []string{"5", "1.5", "\"x\"", "\"0x01020304\"", "\"0x0102030405\"", "\"0x0102\"", "\"0x\"", "true", "null", "[1,2]", "[\"a\"]", "{\"a\":1}", "{}"}
 	targets := []func() any{
 		func() any { return &rpI64{} }, func() any { return &rpU8{} }, func() any { return &rpI32{} }, func() any { return &rpU64{} },
 		func() any { return &rpF{} }, func() any { return &rpB{} }, func() any { return &rpS{} }, func() any { return &rpArr{} },
